@@ -172,6 +172,8 @@ def invalid_feature(c):
         f.append("duplicate-field-extension")
     if 20 in picked:
         f.append("duplicate-type")
+    if picked & {58, 59, 60}:
+        f.append("duplicate-member-in-definition" + ("+extension" if any(i["it"] == "ext" for i in c["doc"]) else ""))
     defs = {i["t"]["name"] for i in c["doc"] if i["it"] == "def"}
     if any(i["it"] == "ext" and i["target"] not in defs for i in c["doc"]):
         f.append("undefined-extension-target")
@@ -208,7 +210,8 @@ def run(chk):
     for name, idx, n in (("split extension blocks", {9, 42, 43, 44}, 5), ("supplied enum / scalar, extended", {5, 8, 14, 37}, 5),
                          ("covariant list fields", {38, 39, 40, 41}, 4), ("root operation types", {9, 10, 25, 26, 31, 32}, 5), ("conventional root names on non-object types", {10, 9, 32, 56, 57}, 4), ("interface / input extension fields", {2, 6, 33, 34, 35}, 5),
                          ("directive definitions next to extensions", {5, 6, 14, 15, 45, 46, 47, 50}, 5), ("recursive defaults and integer bounds", {7, 48, 49}, 4),
-                         ("invalid: non-interfaces implemented, duplicate values, output types as arguments, scalar extensions", {5, 9, 51, 52, 53, 54, 55}, 3)):
+                         ("invalid: non-interfaces implemented, duplicate values, output types as arguments, scalar extensions", {5, 9, 51, 52, 53, 54, 55}, 3),
+                         ("invalid: a member name twice inside one definition, next to extensions", {6, 11, 15, 58, 59, 60}, 4)):
         cfg = tlc.cfg(constants={"MaxItems": n, "MenuIdx": idx, "Slice": 0, "NSlices": 1}, invariants=["Emit", "OrderFree"])
         rf = chk.tlc("GqlSdl", cfg, tags=["BLD"], label="GqlSdl focus: %s, items<=%d" % (name, n), heap="4g")
         if rf.rc != 0:
